@@ -6,4 +6,5 @@ INVARIANT Inv_Restore
 INVARIANT Inv_RejectedUntouched
 INVARIANT Inv_NestConj
 INVARIANT Inv_TopClean
+INVARIANT Inv_ConstMeaning
 CHECK_DEADLOCK FALSE
